@@ -163,7 +163,7 @@ fn byte_values(orig: u8, thorough: bool) -> Vec<u8> {
     if thorough {
         return (0..=255u8).filter(|b| *b != orig).collect();
     }
-    let mut v = vec![0, 1, 2, 3, 0x7f, 0x80, 0xfe, 0xff, orig ^ 1, orig.wrapping_add(1), orig ^ 0x80];
+    let mut v = vec![0, 1, 2, 3, 4, 8, 0x10, 0x20, 0x40, 0x7f, 0x80, 0xfe, 0xff, orig ^ 1, orig.wrapping_add(1), orig ^ 0x80];
     v.sort();
     v.dedup();
     v.retain(|b| *b != orig);
@@ -204,7 +204,20 @@ pub fn mutate_encoding(t: &Target, vals: &[Val], thorough: bool, out: &mut Vec<F
     // (a) every byte position x replacement values
     let lim = if thorough { 160 } else { 96 };
     let region: Vec<usize> = if bytes.len() <= lim { (0..bytes.len()).collect() } else { (0..32.min(payload_at)).chain(payload_at..bytes.len().min(payload_at + lim)).collect() };
+    // quick tier: the upper six bytes of a length field are left to the systematic length
+    // mutations (b); every replacement there declares > 65535 elements and mostly ends in the
+    // same allocation failure (a process restart each)
+    let len_high: Vec<usize> = enc
+        .marks
+        .iter()
+        .filter(|m| matches!(m.kind, MarkKind::StrLen | MarkKind::SeqLen))
+        .flat_map(|m| (payload_at + m.pos + 2)..(payload_at + m.pos + 8))
+        .collect();
     for pos in region {
+        if !thorough && len_high.contains(&pos) {
+            st.add("C06.len_high_bytes_left_to_length_mutations", 1);
+            continue;
+        }
         for b in byte_values(bytes[pos], thorough) {
             let mut m = bytes.clone();
             m[pos] = b;
